@@ -202,6 +202,7 @@ impl GraphEngine {
     pub fn begin_read(&self) -> Snapshot {
         vread!("publish_lock", self.publish_lock);
         let _publish = self.publish_lock.read().unwrap();
+        let _vh_publish = vheld!("publish_lock");
         self.begin_read_published()
     }
 
